@@ -2,7 +2,7 @@
    Property theorems only; each is closed by [exact] of a lemma proved in proofs/.
    Window values are in FX = 4096-ths of a byte (every f32 >= 2048 is such a multiple). *)
 From SQ Require Import lib.Base gen.Gen_C10.
-From SQ Require model.Cubic model.Bbr model.CcGate proofs.Round24 proofs.CubicProofs proofs.CubicJudge proofs.BbrProofs proofs.CcGateProofs.
+From SQ Require model.Cubic model.Bbr model.CcGate proofs.Round24 proofs.CubicProofs proofs.CubicJudge proofs.BbrProofs proofs.CcGateProofs proofs.CcGateJudge.
 Import Cubic CubicProofs.
 Local Open Scope N_scope.
 
@@ -157,6 +157,14 @@ Theorem C10_gate : forall amp s, 0 < mds s ->
      CcGate.cubic_constraint amp s = CcGate.CongestionLimited).
 Proof. exact CcGateProofs.gate. Qed.
 
+(* the executable clause "the fast-retransmission allowance turns on only at a loss / ECN-CE event and at
+   most once per recovery period" (component cubic_gate) accepts every replay of the CUBIC model: every
+   case, every oracle answer sequence, runs in which the implementation's checked counters panic included;
+   no side condition *)
+Theorem C10_cubic_gate_judge_model : forall case rows,
+  CcGate.cubic_gate_judge case (Cubic.replay case rows) = true.
+Proof. exact CcGateJudge.gate_judge_replay. Qed.
+
 (* non-vacuity: slow start, a loss (12000 -> 8400), a second loss inside the recovery period
    (unchanged), then persistent congestion (-> 2400) *)
 Example C10_example :
@@ -198,3 +206,4 @@ Print Assumptions C10_bbr_floor.
 Print Assumptions C10_bbr_bif_matches_outstanding.
 Print Assumptions C10_bbr_judge_model.
 Print Assumptions C10_gate.
+Print Assumptions C10_cubic_gate_judge_model.
